@@ -18,7 +18,7 @@ RULE = ("seeded histories over 1-2 tokens with sessions in all five states (RO/R
 PROBES = ["neg_probe", "neg_probe_live_handle", "neg_code_checked", "pos_probe_ok", "ro_write_refused", "private_create_refused", "search_hides_private", "search_shows_private", "so_session_probe", "cross_token_probe", "stale_handle_probe", "output_scanned"]
 DEATH_IS_VIOLATION = ()
 
-ENTRY = ["getattr", "setattr", "copy", "destroy", "find", "encinit", "decinit", "signinit", "verifyinit", "digestkey", "wrap_wkey", "wrap_key", "unwrap", "derive_base", "derive_second", "create", "genkey", "genpair", "copy_priv"]
+ENTRY = ["getattr", "setattr", "copy", "destroy", "find", "encinit", "decinit", "signinit", "verifyinit", "digestkey", "wrap_wkey", "wrap_key", "unwrap", "derive_base", "derive_second", "derive_second", "create", "genkey", "genpair", "copy_priv"]
 
 class GW(OW):
     def key_objs(self, pid, kinds):
@@ -152,6 +152,14 @@ def gen(seed, tier, index):
         rw = [s for s in g.live_sessions(1) if s.rw]
         if not rw: break
         g.s_create(kind=kd, private=r.random() < 0.75, token=r.random() < 0.6, sess=r.choice(rw))
+    # stratum: privacy upgrade by copy (public -> private), the copy's handle is then kept across logouts
+    if index % 3 == 0:
+        for o in [x for x in g.live_objs(1) if not x.private and g.info.get(x.ref, {}).get("kind") in ("aes", "generic")][:2] or []:
+            ss = [s for s in g.live_sessions(1, o.tok) if s.rw and g.P(1).login.get(o.tok) == "U"]
+            if not ss: continue
+            new = g.new_obj()
+            g.emit({"f": "C_CopyObject", "s": ss[0].ref, "o": o.ref, "tmpl": [A_bytes(K.CKA_LABEL, objs.label(new)), A_bool(K.CKA_TOKEN, r.random() < 0.6), A_bool(K.CKA_PRIVATE, True)], "out": new, "probe": "copy_priv"})
+            g.info[new] = g.info[o.ref]
     n = r.choice([10, 16, 24, 40]) if tier == "quick" else r.choice([20, 40, 80])
     for _ in range(n):
         g.step(W)
